@@ -81,6 +81,17 @@ WellFormed(doc, out) ==
     /\ \A i \in 1..Len(out.data) : ObjWellFormed(out.data[i])
     /\ \A i \in 1..Len(out.included) : ObjWellFormed(out.included[i])
 
+\* The pinned code leaves the type out of the self link of a resource that has no id (the link is the
+\* prefix alone, and the relationship links hang off it: "prefix//relationships/name").  Identified as:
+\* the output is well-formed once the links of the objects without id are waived.
+WaiveLinks(obj) == IF obj.id # "" THEN obj
+                   ELSE [obj EXCEPT !.selfok = TRUE,
+                                    !.rels = [f \in DOMAIN obj.rels |-> [obj.rels[f] EXCEPT !.selfok = TRUE, !.relatedok = TRUE]]]
+Dev_SelfLinkOfResourceWithoutID(doc, out) ==
+    /\ ~WellFormed(doc, out)
+    /\ WellFormed(doc, [out EXCEPT !.data = [i \in 1..Len(out.data) |-> WaiveLinks(out.data[i])],
+                                   !.included = [i \in 1..Len(out.included) |-> WaiveLinks(out.included[i])]])
+
 \* no type/id pair twice across primary data and included
 Keys(objs) == [i \in 1..Len(objs) |-> <<objs[i].type, objs[i].id>>]
 NoDup(q) == \A i, j \in 1..Len(q) : q[i] = q[j] => i = j
